@@ -188,6 +188,7 @@ pub fn op_strategy(w: &Weights) -> BoxedStrategy<Op> {
                 H::KindChange, H::TsZero, H::TsFarFuture, H::TsTooOld, H::NoHTag, H::TwoHTags, H::HNotHex, H::HUpperCase, H::HShort,
                 H::HOfUnknownGroup, H::ContentNotBase64, H::ContentTruncated, H::ContentEmpty, H::InnerEmpty, H::HeaderGroupId, H::BackdatedCopy,
             ]),
+            any::<u8>().prop_map(H::HSameLengthNonAscii),
             any::<u8>().prop_map(H::InnerRandom),
             any::<u16>().prop_map(H::InnerBitFlip),
             any::<u16>().prop_map(H::InnerBitFlip),
